@@ -297,7 +297,12 @@ Definition place (w : world) (dsid off : Z) (tsid taddr raw : Z) : res world :=
 (* capability table entries: the source's entry i is recorded as the abstract client id i.
    [strict] is passed to readPtr (composite tag check). Fuel exhaustion returns [Err] and is
    excluded by the theorems (fuel > source depth limit). *)
-Fixpoint write_ptr (fuel : nat) (strict : bool) (w : world) (dsid off : Z) (l : loc) (src : Ptr)
+(* [fix_pad]: the repaired code describes the copy of a struct whose data size is not a whole
+   number of words (List.Struct(i) of a 1/2/4-byte list: a list member, so it is copied) with
+   the data size padded to a word, so that the pointer written is well formed and the value is
+   the element zero-extended; as found, rawStructPointer(0, st.size) panics "data size not
+   aligned by word" *)
+Fixpoint write_ptr_gen (fix_pad : bool) (fuel : nat) (strict : bool) (w : world) (dsid off : Z) (l : loc) (src : Ptr)
          (forceCopy : bool) {struct fuel} : res world :=
   match fuel with
   | O => Err
@@ -317,10 +322,12 @@ Fixpoint write_ptr (fuel : nat) (strict : bool) (w : world) (dsid off : Z) (l : 
         lift0 w (writeRawPointer (w_dst w) dsid off v)
       else
         do r <- (if forceCopy || is_src l || p_member src then
-                   do a <- alloc (w_dst w) dsid (totalSize (p_size src));
+                   let csz := if fix_pad then mkOS (padToWord (DataSize (p_size src))) (PointerCount (p_size src))
+                              else p_size src in
+                   do a <- alloc (w_dst w) dsid (totalSize csz);
                    let '(m1, nsid, naddr) := a in
-                   let dstp := mkPtr true nsid naddr 0 (p_size src) maxDepth KStruct false false false in
-                   do w2 <- copy_struct f strict (w_set_dst w m1) dstp l src;
+                   let dstp := mkPtr true nsid naddr 0 csz maxDepth KStruct false false false in
+                   do w2 <- copy_struct_gen fix_pad f strict (w_set_dst w m1) dstp l src;
                    Ok (w2, dstp)
                  else Ok (w, src));
         let '(w', st) := r in
@@ -349,7 +356,7 @@ Fixpoint write_ptr (fuel : nat) (strict : bool) (w : world) (dsid off : Z) (l : 
                                (fun wa i =>
                                   do de <- list_struct true dstl i;
                                   do se <- list_struct true src i;
-                                  copy_struct f strict wa de l se));
+                                  copy_struct_gen fix_pad f strict wa de l se));
                  Ok (w3, dstl)
                else Ok (w, src));
       let '(w', lst) := r in
@@ -359,7 +366,7 @@ Fixpoint write_ptr (fuel : nat) (strict : bool) (w : world) (dsid off : Z) (l : 
     end
   end
 
-with copy_struct (fuel : nat) (strict : bool) (w : world) (dst : Ptr) (l : loc) (src : Ptr) {struct fuel} : res world :=
+with copy_struct_gen (fix_pad : bool) (fuel : nat) (strict : bool) (w : world) (dst : Ptr) (l : loc) (src : Ptr) {struct fuel} : res world :=
   match fuel with
   | O => Err
   | S f =>
@@ -379,10 +386,15 @@ with copy_struct (fuel : nat) (strict : bool) (w : world) (dst : Ptr) (l : loc) 
                                              (nth (Z.to_nat (p_seg src)) (w_segs wa l) [])
                                              (pointerAddress src j) (p_depth src) in
                     do q <- r;
-                    write_ptr f strict (w_set_rl wa l rl') (p_seg dst) (pointerAddress dst j) l q true);
+                    write_ptr_gen fix_pad f strict (w_set_rl wa l rl') (p_seg dst) (pointerAddress dst j) l q true);
       fold_res (map (fun k => ns + k) (iota (Z.to_nat (nd - ns)))) w2
                (fun wa j => lift0 wa (writeRawPointer (w_dst wa) (p_seg dst) (pointerAddress dst j) 0))
   end.
+
+Definition write_ptr := write_ptr_gen true.
+Definition copy_struct := copy_struct_gen true.
+Definition write_ptr_asfound := write_ptr_gen false.
+Definition copy_struct_asfound := copy_struct_gen false.
 
 (* Struct.SetPtr(i, src): panics outside the pointer section *)
 Definition struct_set_ptr (fuel : nat) (w : world) (p : Ptr) (i : Z) (l : loc) (src : Ptr) : res world :=
